@@ -39,7 +39,8 @@ def print_sites(mir):
     return out
 
 
-def worker(ck: Check, code):
+def worker(ck: Check, job):
+    code, part = job
     L = LANGS[code]
     mir, res, th, mh = load_mir()
     words = vocabulary_words(mir, res, code)
@@ -49,6 +50,9 @@ def worker(ck: Check, code):
     first = [w for w in CORE_WORDS[code] if w in words][:10]
     wid = [z3.BitVec('w%d' % i, 16) for i in range(2)]
     assm = [z3.ULE(wid[0], len(first)), z3.ULT(wid[1], len(words))]
+    # the phrases of a language are split over two parallel jobs by the first word (keeps the quick tier short)
+    mid = len(first) // 2
+    assm.append(z3.ULE(wid[0], mid) if part == 0 else z3.UGT(wid[0], mid))
     # slot 1: nothing or one of a few words that put the builder in its various states; slot 2: any vocabulary word
     slots = [[(wid[0] == i + 1, first[i]) for i in range(len(first))] + [(wid[0] == 0, None)],
              [(wid[1] == i, words[i]) for i in range(len(words))]]
@@ -71,8 +75,10 @@ def worker(ck: Check, code):
         rep = {'lang': code, 'text': text, 'native_text2digits': r, 'native_replace': r2}
         return {'key': {'lang': code, 'kind': 'output'}, 'reproduced': bool(out), 'replay': rep,
                 'what': '%s: processing %r writes to the standard streams: %r' % (code, text, out[:120])}
-    ck.prove_none('%s:no-output' % code, assm, bad, on_cex, lambda m, c: None)
-    ck.cover('%s:vocabulary-reached' % code, assm, lambda m: {'lang': code, 'words': concrete_phrase(slots, m)})
+    ck.prove_none('%s:no-output:%d' % (code, part), assm, bad, on_cex, lambda m, c: None)
+    ck.cover('%s:vocabulary-reached:%d' % (code, part), assm, lambda m: {'lang': code, 'words': concrete_phrase(slots, m)})
+    if part != 0:
+        return
     # two-call query: a call after another call on the same interpreter value gives the same result as on a fresh one
     ex2 = make_executor(ck, assm)
     lang1 = H.lang_value(ex2, L.type_name)
@@ -183,7 +189,7 @@ def run(ck: Check):
     only = os.environ.get('VERIF_LANGS')
     if only:
         langs = [c for c in langs if c in only.split(',')]
-    run_parallel(ck, worker, langs)
+    run_parallel(ck, worker, [(c, p_) for p_ in (0, 1) for c in langs])
     # every print site must have been reached by some exploration or be shown unreachable; a site that exists but was
     # never reached by the explorations is reported as not decided
     # (c) Send + Sync: compile-time obligation of the native helper
